@@ -92,6 +92,10 @@ class MapSpec(H.Spec):
             ops.append(('m_extend', [['b', 2], ['b', 1]], True))
             ops.append(('m_extend', [['c', 2], ['a', 1]], False))
             ops.append(('m_extend_dict', {'b': 2}))
+            # the same through one-shot iterables (generator, zip, iterator): extend takes any iterable of pairs
+            ops.append(('m_extend_iter', [['d', 2], ['c', 1]], False, 'gen'))
+            ops.append(('m_extend_iter', [['d', 2]], False, 'zip'))
+            ops.append(('m_extend_iter', [['a', 2], ['d', 1]], True, 'iter'))
         return ops
 
     # ---- reference semantics -------------------------------------------------------------------
@@ -183,7 +187,7 @@ class MapSpec(H.Spec):
             return self.model_step(m, ('add_plain', op[1], 'M', True))
         if kind == 'm_append_v':
             return self.model_step(m, ('add_plain', op[1], op[2], op[3]))
-        if kind in ('m_extend', 'm_extend_dict'):
+        if kind in ('m_extend', 'm_extend_dict', 'm_extend_iter'):
             items = list(op[1].items()) if kind == 'm_extend_dict' else op[1]
             rep = True if kind == 'm_extend_dict' else op[2]
             for k, v in items:
@@ -237,6 +241,10 @@ class MapSpec(H.Spec):
             return d.extend([tuple(x) for x in op[1]], replace=op[2])
         elif kind == 'm_extend_dict':
             return d.extend(dict(op[1]))
+        elif kind == 'm_extend_iter':
+            pairs = [tuple(x) for x in op[1]]
+            src = {'gen': (p for p in pairs), 'zip': zip([p[0] for p in pairs], [p[1] for p in pairs]), 'iter': iter(pairs)}[op[3]]
+            return d.extend(src, replace=op[2])
         else:
             raise HarnessError('unknown op %r' % (op,))
 
